@@ -351,9 +351,18 @@ def RenderProgram(prog, engine_line='@Engine("sqlite");'):
   lines += prog.get('ann', [])
   for p in prog['preds']:
     if p.get('order') and not p.get('order_as_denotation'):
-      lines.append('@OrderBy(%s, %s);' % (p['name'], ', '.join(
-          '"%s%s"' % (o['f'], ' desc' if o['desc'] else '')
-          for o in p['order'])))
+      if p.get('order_desc_marker'):
+        # the descending mark as an item of its own: "col0", "DESC", "col1"
+        items = []
+        for o in p['order']:
+          items.append('"%s"' % o['f'])
+          if o['desc']:
+            items.append('"DESC"')
+        lines.append('@OrderBy(%s, %s);' % (p['name'], ', '.join(items)))
+      else:
+        lines.append('@OrderBy(%s, %s);' % (p['name'], ', '.join(
+            '"%s%s"' % (o['f'], ' desc' if o['desc'] else '')
+            for o in p['order'])))
     if p.get('limit', -1) >= 0 and not p.get('limit_as_denotation'):
       lines.append('@Limit(%s, %d);' % (p['name'], p['limit']))
   makes = prog.get('makes', [])
